@@ -1661,6 +1661,10 @@ func runT(f []string) string {
 
 func runCase(line string) string {
 	f := strings.Split(line, " ")
+	if len(f) >= 3 && f[0] == "Y" {
+		res, _ := hx.Guard(10*deadline, func() string { return runY(f) })
+		return f[1] + " " + res
+	}
 	if len(f) >= 3 && f[0] == "E" && f[2] == "tbsc" {
 		res, _ := hx.Guard(deadline, func() string { return runTBSC(f) })
 		return f[1] + " " + res
@@ -1856,6 +1860,14 @@ func gen(seed uint64, tier string) []string {
 			algo = 0
 		}
 		emit(kind, s, algo, r.U64())
+	}
+	nY := 6
+	if tier == "thorough" {
+		nY = 40
+	}
+	for i := 0; i < nY; i++ {
+		id++
+		lines = append(lines, genY(r, id, i))
 	}
 	nE := 400
 	if tier == "thorough" {
@@ -2505,4 +2517,194 @@ func runTBSC(f []string) string {
 		return "err parse"
 	}
 	return "ok " + hx.Hex(c.RawTBSCertificate)
+}
+
+// ------------------------------------------------------------------------------------------------
+// Y cases: HISTORIES.  Fixed SM2 keys whose public coordinates have leading zero bytes (the encodings the
+// package pads: ZA, elliptic.Marshal) are used one after the other; each key issues a self-signed CA certificate, a
+// certificate for the next key, a request and a CRL; after EVERY issuance all objects issued so far are verified
+// again under their issuer (must succeed), after every key's last object also under every other key used so far
+// (must fail), and the public key of
+// every certificate must parse back to the subject's coordinates.
+//
+//	Y <id> <scalar>,<scalar>,...      private scalars (64 hex digits), in the order of use
+//	-> ok <objects> <checks> <failures>   failures = "-" or step:object:what joined by ","
+
+// scalars whose public point has leading zero bytes (found off line; categories re-checked by yKey)
+var yShort = map[string][]string{
+	"X31": {"b41e8c2df82af80603a5d04a73f908a86c7f7f3666c87105bec4fa614ef5080f", "0c95056e37e01d702febbb7b001ef32b1e1bc5cc7acf872bd10a77d1297eddfb"},
+	"X30": {"60fe767ff9d61cb9f57cb3a28f811ace0c5d8854e3410fe41cb599b369ec9ffe", "ff7832b6d7f5d4b0e9d3407be7d9e07b00d9f28e6aff32cefff37d02df1aebb2"},
+	"Y31": {"584c3b540b4eefe4be952585da291a8858a83d6ee515553559b64de5928a942f", "b9b4ff4c51f2f93cdf0ace5c34c03329a2ba87e1b3cc2a69434cc7886c42379c"},
+	"Y30": {"60dd169258fd39efdc88673545a84a4a207276a78d46b0bd5b9d836516d46239", "425b7c1a5213d0eb89f7979575187da8adb275f4bab0f9ab271aee5163cf9096"},
+	"XY31": {"8274011715a602340ec519a9e7303be20bbf7ebe03379fd9af477bf951f04262", "38aa188f4105c00cf00885da39f3c6da196d67af28e1c7d8b8edd04f1024fc3a"},
+	"FULL": {"1f2e3d4c5b6a79881f2e3d4c5b6a79881f2e3d4c5b6a79881f2e3d4c5b6a7988", "00000000000000000000000000000000000000000000000000000000000000a7"},
+	"Y29": {"000000000154450000000000000000000000000000000000000000000007d046"},
+	"X29": {"000000000b2faf00000000000000000000000000000000000000000000230267"},
+}
+
+func yKey(hexd string) *sm2.PrivateKey {
+	c := sm2.P256Sm2()
+	d, ok := new(big.Int).SetString(hexd, 16)
+	if !ok {
+		panic("bad scalar in case line")
+	}
+	k := new(sm2.PrivateKey)
+	k.Curve, k.D = c, d
+	k.X, k.Y = c.ScalarBaseMult(d.Bytes())
+	return k
+}
+
+func genY(r *hx.Rng, id, i int) string {
+	cats := []string{"X31", "X30", "Y31", "Y30", "XY31", "FULL", "X29", "Y29"}
+	// the categories are what the scalars were searched for: re-checked here, a wrong table must not go unnoticed
+	for c, l := range yShort {
+		for _, sc := range l {
+			k := yKey(sc)
+			got := fmt.Sprintf("X%dY%d", len(k.X.Bytes()), len(k.Y.Bytes()))
+			want := map[string]string{"X31": "X31Y32", "X30": "X30Y32", "Y31": "X32Y31", "Y30": "X32Y30", "XY31": "X31Y31", "FULL": "X32Y32", "X29": "X29Y32", "Y29": "X32Y29"}[c]
+			if got != want {
+				panic("history key table: " + sc + " is " + got + ", listed as " + c)
+			}
+		}
+	}
+	// one key per category, in a seed-rotated order; every second history starts with two-or-more-zero-byte keys so
+	// that their objects exist before a one-zero-byte key is handled
+	var ks []string
+	for _, c := range cats {
+		ks = append(ks, yShort[c][r.Intn(len(yShort[c]))])
+	}
+	for j := len(ks) - 1; j > 0; j-- {
+		k := r.Intn(j + 1)
+		ks[j], ks[k] = ks[k], ks[j]
+	}
+	rot := i % len(ks)
+	ks = append(ks[rot:], ks[:rot]...)
+	return fmt.Sprintf("Y %d %s", id, strings.Join(ks, ","))
+}
+
+type yObj struct {
+	name   string
+	issuer int // index of the issuing key
+	check  func(ca *x509.Certificate, key *sm2.PrivateKey) bool
+}
+
+func runY(f []string) string {
+	scalars := strings.Split(f[2], ",")
+	keys := make([]*sm2.PrivateKey, len(scalars))
+	cas := make([]*x509.Certificate, len(scalars))
+	var objs []yObj
+	var fails []string
+	checks := 0
+	step := 0
+	fail := func(o yObj, what string) {
+		if len(fails) < 12 {
+			fails = append(fails, fmt.Sprintf("step%d:%s:%s", step, o.name, what))
+		}
+	}
+	// under the issuer: after every issuance; under the other keys used so far: once per key (after its last object)
+	verifyAll := func(used int, others bool) {
+		step++
+		for _, o := range objs {
+			for k := 0; k <= used; k++ {
+				if cas[k] == nil || (k != o.issuer && !others) {
+					continue
+				}
+				checks++
+				got := o.check(cas[k], keys[k])
+				if k == o.issuer && !got {
+					fail(o, fmt.Sprintf("no-longer-verifies-under-issuer-key%d", k))
+				}
+				if k != o.issuer && got {
+					fail(o, fmt.Sprintf("verifies-under-other-key%d", k))
+				}
+			}
+		}
+	}
+	nb, na := time.Unix(1700000000, 0), time.Unix(1900000000, 0)
+	for i, sc := range scalars {
+		keys[i] = yKey(sc)
+		key := keys[i]
+		name := pkix.Name{CommonName: fmt.Sprintf("history key %d", i), Organization: []string{"verif"}}
+		// 1. self-signed CA certificate
+		t := &x509.Certificate{SerialNumber: big.NewInt(int64(100 + i)), Subject: name, NotBefore: nb, NotAfter: na,
+			BasicConstraintsValid: true, IsCA: true, KeyUsage: x509.KeyUsageCertSign | x509.KeyUsageCRLSign,
+			SubjectKeyId: []byte{byte(i + 1), 7, 7}, SignatureAlgorithm: x509.SM2WithSM3}
+		der, err := x509.CreateCertificate(t, t, &key.PublicKey, key)
+		if err != nil {
+			return "err create-ca:" + slug(err.Error())
+		}
+		ca, err := x509.ParseCertificate(der)
+		if err != nil {
+			return "err parse-ca:" + slug(err.Error())
+		}
+		cas[i] = ca
+		pubOK := func(c *x509.Certificate, want *sm2.PrivateKey) bool {
+			p, ok := c.PublicKey.(*ecdsa.PublicKey)
+			return ok && p.X.Cmp(want.X) == 0 && p.Y.Cmp(want.Y) == 0
+		}
+		caCert := ca
+		me := i
+		objs = append(objs, yObj{fmt.Sprintf("ca%d", i), i, func(by *x509.Certificate, _ *sm2.PrivateKey) bool {
+			return caCert.CheckSignatureFrom(by) == nil && by.CheckSignature(caCert.SignatureAlgorithm, caCert.RawTBSCertificate, caCert.Signature) == nil
+		}})
+		if !pubOK(ca, key) {
+			fail(objs[len(objs)-1], "public-key-does-not-parse-back")
+		}
+		verifyAll(i, false)
+		// 2. a certificate for the NEXT key of the history (its coordinates go through elliptic.Marshal)
+		next := yKey(scalars[(i+1)%len(scalars)])
+		lt := &x509.Certificate{SerialNumber: big.NewInt(int64(200 + i)), Subject: pkix.Name{CommonName: fmt.Sprintf("leaf %d", i)},
+			NotBefore: nb, NotAfter: na, DNSNames: []string{"a.example.com"}, SignatureAlgorithm: x509.SM2WithSM3}
+		der, err = x509.CreateCertificate(lt, ca, &next.PublicKey, key)
+		if err != nil {
+			return "err create-cert:" + slug(err.Error())
+		}
+		leaf, err := x509.ParseCertificate(der)
+		if err != nil {
+			return "err parse-cert:" + slug(err.Error())
+		}
+		objs = append(objs, yObj{fmt.Sprintf("cert%d", i), me, func(by *x509.Certificate, _ *sm2.PrivateKey) bool {
+			return leaf.CheckSignatureFrom(by) == nil
+		}})
+		if !pubOK(leaf, next) {
+			fail(objs[len(objs)-1], "public-key-does-not-parse-back")
+		}
+		verifyAll(i, false)
+		// 3. a certificate request
+		csrDER, err := x509.CreateCertificateRequest(rand.Reader, &x509.CertificateRequest{Subject: name, SignatureAlgorithm: x509.SM2WithSM3}, key)
+		if err != nil {
+			return "err create-csr:" + slug(err.Error())
+		}
+		csr, err := x509.ParseCertificateRequest(csrDER)
+		if err != nil {
+			return "err parse-csr:" + slug(err.Error())
+		}
+		objs = append(objs, yObj{fmt.Sprintf("csr%d", i), me, func(_ *x509.Certificate, k *sm2.PrivateKey) bool {
+			q := *csr
+			q.PublicKey = &ecdsa.PublicKey{Curve: sm2.P256Sm2(), X: k.X, Y: k.Y}
+			return q.CheckSignature() == nil
+		}})
+		if p, ok := csr.PublicKey.(*ecdsa.PublicKey); !ok || p.X.Cmp(key.X) != 0 || p.Y.Cmp(key.Y) != 0 {
+			fail(objs[len(objs)-1], "public-key-does-not-parse-back")
+		}
+		verifyAll(i, false)
+		// 4. a CRL
+		crlDER, err := ca.CreateCRL(rand.Reader, key, []pkix.RevokedCertificate{{SerialNumber: big.NewInt(5), RevocationTime: nb}}, nb, na)
+		if err != nil {
+			return "err create-crl:" + slug(err.Error())
+		}
+		crl, err := x509.ParseDERCRL(crlDER)
+		if err != nil {
+			return "err parse-crl:" + slug(err.Error())
+		}
+		objs = append(objs, yObj{fmt.Sprintf("crl%d", i), me, func(by *x509.Certificate, _ *sm2.PrivateKey) bool {
+			return by.CheckCRLSignature(crl) == nil
+		}})
+		verifyAll(i, true)
+	}
+	fs := "-"
+	if len(fails) > 0 {
+		fs = strings.Join(fails, ",")
+	}
+	return fmt.Sprintf("ok %d %d %s", len(objs), checks, fs)
 }
